@@ -206,6 +206,10 @@ def run_shard(sh, acc):
         r = _one(md, mode, src, acc, c)
         if r:
             acc.violation(kind, r[0], {"cfg": c, "mode": mode, "src": src}, r[1])
+            if r[0] == "hang":
+                acc.count("hang_verdicts")
+                if acc.counters.get("hang_verdicts", 0) >= 3:
+                    return  # three hang verdicts are enough for this shard; each costs the watchdog time
 
 
 class _Str(str):
